@@ -24,6 +24,11 @@ Core Lean only (the driver links this file).
   put on the network only once it is part of the **durable** version (C05).
   A crash is `vol := dur; pending := []; role := follower`.
 * The network is a monotone soup: anything in it can be received any number of times in any order.
+* A vote request leaves at `campaign`, i.e. possibly before the new term (and the tail of the log) is
+  durable.  A node that crashed may therefore campaign twice for one term with different logs; it
+  may only become leader if the log it leads with is at least as up to date as every request of
+  that candidacy that is in the soup (`reqVotesCovered`, SPEC_ISSUES.md issue 1 /
+  SPEC_CHANGES.md #1): the log may have grown since the first request, it must not have shrunk.
 -/
 namespace RaftVerif.Spec
 
@@ -140,6 +145,16 @@ def hasAppOrSnap (msgs : List Msg) (t : Nat) : Bool :=
     | .snap t' _ => t' == t
     | _ => false
 
+/-- the log `l` is at least as up to date as the last entry id `(lt, li)` advertised by every vote
+request of candidate `cand` for term `t` in the soup (SPEC_CHANGES.md #1: a node never counts votes
+that were granted on the strength of a request describing a *more* up-to-date log than the one it is
+about to lead with) -/
+def reqVotesCovered (msgs : List Msg) (t cand : Nat) (l : Log) : Bool :=
+  msgs.all fun m => match m with
+    | .reqVote t' c' lt li =>
+        !(t' == t && c' == cand) || (l.lastTerm > lt || (l.lastTerm == lt && l.length ≥ li))
+    | _ => true
+
 /-- handling the append leaves the prefix up to `commit` untouched -/
 def keepsCommitted (l : Log) (prev prevTerm : Nat) (ents : Log) (commit : Nat) : Bool :=
   match appendResult l prev prevTerm ents with
@@ -217,6 +232,8 @@ def enabled (cfg : Cfg) (s : State) : Action → Prop
   | .becomeLeader n q =>
       let nd := s.nodes n
       nd.role = .candidate ∧ cfg.isQuorum q = true ∧ (nd.vol.term, n) ∈ nd.dur.votes ∧
+      -- SPEC_CHANGES.md #1: the log it leads with covers all vote requests of this candidacy
+      reqVotesCovered s.msgs nd.vol.term n nd.vol.log = true ∧
       ∀ v ∈ q, v = n ∨ Msg.vote nd.vol.term v n ∈ s.msgs
   | .stepDown _ => True
   | .leaderAppend n _ => (s.nodes n).role = .leader
